@@ -560,8 +560,11 @@ PROPS = {
                              {"kind": "algo", "name": "algoevict", "profile": "evict", "count": {"quick": 16, "thorough": 160}, "salt": 24}],
                      ["best_is_min_ss1 is stated for any total preorder on objective values with mean [x] ~ x and instantiated at finite binary64 values (best_is_min_ss1_f64: the order hypotheses are theorems of Base/FinOrder.v)"],
                      ["algorithm core at operation granularity: sequences of next_individual / process_individual_eval on the real AlgoContext (cfg hook) with the whole population read back and compared with the model's (Check/AlgoCheck.v), incl. runs past the population cap"]),
-    "C03": _run_prop("C03", [{"kind": "run", "name": "mixed", "profile": "mixed", "count": {"quick": 320, "thorough": 4000}, "salt": 3}]),
-    "C04": _run_prop("C04", [{"kind": "run", "name": "stop", "profile": "stop", "count": {"quick": 320, "thorough": 4000}, "salt": 4}],
+    "C03": _run_prop("C03", [{"kind": "run", "name": "mixed", "profile": "mixed", "count": {"quick": 320, "thorough": 4000}, "salt": 3},
+                             {"kind": "cli", "name": "budget", "profile": "budget", "count": {"quick": 32, "thorough": 300}, "salt": 31}],
+                     None, ["the budget through the binary (termination::compile with -n alone or combined with a time limit that cannot fire, sync_launch, async_launch): exactly N children started (cli stream, profile budget)"]),
+    "C04": _run_prop("C04", [{"kind": "run", "name": "stop", "profile": "stop", "count": {"quick": 320, "thorough": 4000}, "salt": 4},
+                             {"kind": "cli", "name": "limit", "profile": "limit", "count": {"quick": 16, "thorough": 120}, "salt": 41}],
                      ["'delivered' = taken up by the controller's select loop (the abort turn); a request sent while completions are queued may be taken up after some of them (DESIGN 3, C04)"]),
     "C05": _run_prop("C05", [{"kind": "run", "name": "mixed", "profile": "mixed", "count": {"quick": 320, "thorough": 4000}, "salt": 5},
                              {"kind": "meta", "name": "inproc", "profile": "inproc", "count": {"quick": 24, "thorough": 400}, "salt": 51}],
